@@ -26,6 +26,7 @@ func runC01(c *Ctx, r *Run) {
 	r.Rule("OB-R1", "every returned signature passed Verify(session group key, session message) on the returning path")
 	r.Rule("LAG-1", "Lagrange coefficients are computed over the session's signer set")
 	r.Rule("LAG-2", "each Lagrange coefficient multiplies the share of the same party")
+	r.Rule("LAG-4", "coefficients computed over a domain are consumed over that whole domain, never over a sub-slice")
 	r.Rule("LAG-3", "the session's group key is the sum over the session's parties of the scaled public shares")
 	r.Rule("FH-1", "hash-to-scalar: excess bits from the converted slice; one conversion function on every ECDSA path")
 	r.Rule("SPEC-F", "FROST-Taproot: BIP-340 challenge fields and the even-Y negation sets")
@@ -41,6 +42,7 @@ func runC01(c *Ctx, r *Run) {
 	r.Require("OB-R1", 6)
 	r.Require("LAG-1", 3)
 	r.Require("LAG-2", 6)
+	r.Require("LAG-4", 6)
 	r.Require("LAG-3", 2)
 	r.Require("FH-1", 8)
 	r.Require("SPEC-F", 8)
@@ -356,6 +358,25 @@ func checkLagrange(c *Ctx, r *Run) {
 					why = fmt.Sprintf("coefficient index %v with operand %v is neither a same-index pair nor (own id, own secret share)", idxLabels, ol)
 				}
 			}
+			// LAG-4: the party the coefficient belongs to is drawn from a whole list, not from a prefix/sub-slice of it
+			sub := ""
+			dependsOn(lk.Index, func(v ssa.Value) bool {
+				var base ssa.Value
+				switch x := v.(type) {
+				case *ssa.IndexAddr:
+					base = x.X
+				case *ssa.Index:
+					base = x.X
+				}
+				if base != nil {
+					if sl, ok := resolveLoad(base).(*ssa.Slice); ok && (sl.Low != nil || sl.High != nil) {
+						sub = path(sl)
+					}
+				}
+				return false
+			})
+			r.Check("LAG-4", key, c.Pos(lk.Pos()), sub == "", "the coefficients are consumed for every party of the list they are indexed by",
+				"the loop that consumes the coefficients ranges over the sub-slice "+sub+" while the coefficients were computed for the whole interpolation domain: the partial sum is not the interpolated value (wrong group key / share whenever the prefix is a strict subset, i.e. t < n-1)")
 			r.Check("LAG-2", key, c.Pos(op.Pos()), pair, "coefficient of "+path(lk.Index)+" scales the share of the same party", why+": the shares no longer interpolate to the group key, the session signs under a different key or fails")
 		})
 	}
